@@ -18,6 +18,7 @@ mutual
       | "child" => pure (.child (← jBool a[1]!) (← parseHooks a[2]!))
       | "fill" => pure (.fill (← parseActs a[1]!))
       | "catch" => pure (.catch (← parseActs a[1]!))
+      | "gcm" => pure (.gcm (← parseActs a[1]!))
       | t => throw s!"bad call tag {t}"
   partial def parseActs (j : Json) : Except String Acts := do
     let a ← jArr j
